@@ -64,11 +64,11 @@ func manySeqs() string {
 	return s
 }
 
-var consumers = []string{"eager", "lazy", "slow"}
+var consumers = []string{"eager", "lazy", "slow", "stalled"}
 
 // Timing generates plain scenarios around the Escape-key delay.
 func Timing(rng *rand.Rand) *Scn {
-	sc := &Scn{Kind: "timing", End: "eof", Consumer: consumers[rng.Intn(3)], Retain: rng.Intn(3) == 0, CloseAt: -1}
+	sc := &Scn{Kind: "timing", End: "eof", Consumer: consumers[rng.Intn(len(consumers))], Retain: rng.Intn(3) == 0, CloseAt: -1}
 	if rng.Intn(8) == 0 {
 		sc.End = "error"
 	}
@@ -112,6 +112,11 @@ func Fixed() []*Scn {
 				mk("prompt-esc-seq", cons, retain, false, h("\x1b", false), h("[1;5A", false)),
 				mk("prompt-alt-key", cons, retain, false, h("ab\x1b", false), h("x", false)),
 				mk("esc-esc", cons, retain, true, h("\x1b", false), h("\x1b", true), h("[A", false)),
+				// the ESC delay runs out while the consumer is not reading and the channel is full:
+				// the key press must still come out before what follows, and what follows starts from ground
+				mk("lone-esc-behind-full-channel", cons, retain, true, h("ab\x1b", false), h("c", true)),
+				mk("lone-esc-behind-full-channel", cons, retain, false, h("abc\x1b", false), h("[A", true), h("x", true)),
+				mk("lone-esc-behind-full-channel", cons, retain, true, h("\x1b[1;2Hab\x1b", false), h("Pq", true), h("\x1b", true)),
 				mk("many-seqs-retained", cons, retain, false, h(manySeqs(), false)),
 			)
 		}
